@@ -51,6 +51,21 @@ def run_case(case, ctx):
         for i in ("LicenseRef-special", "MIT"):
             if i not in have:
                 recipe["licenses"].append({"name": i + ".txt", "id": i})
+    if k % 2 == 1 and recipe["global_mode"] != "dep5":
+        # same identifiers, different structure; and byte-identical files with one base name in different directories:
+        # anything memoised on identifiers, base name or content shows up here
+        have = {x["id"] for x in recipe["licenses"]}
+        for i in ("MIT", "Apache-2.0", "0BSD"):
+            if i not in have:
+                recipe["licenses"].append({"name": i + ".txt", "id": i})
+        structs = [("and", [("id", "MIT"), ("id", "Apache-2.0")]), ("or", [("id", "MIT"), ("id", "Apache-2.0")]),
+                   ("or", [("id", "Apache-2.0"), ("and", [("id", "MIT"), ("id", "0BSD")])]),
+                   ("and", [("id", "Apache-2.0"), ("or", [("id", "MIT"), ("id", "0BSD")])]),
+                   ("and", [("id", "0BSD"), ("id", "Apache-2.0"), ("id", "MIT")])]
+        rng.shuffle(structs)
+        for j, e in enumerate(structs):
+            recipe["files"].append({"path": f"pkg{j}/__init__.py", "kind": "text", "style": "python", "multi": False, "body": "twin",
+                                    "sources": [{"carrier": "dotlicense", "copyrights": ["2019 Same Everywhere"], "exprs": [e], "toml_dir": ""}]})
     root = ctx.scratch / f"c18-{k}"
     outdir = ctx.scratch / f"c18-{k}-out"
     try:
